@@ -69,27 +69,29 @@ Section TabProofs.
       rewrite skipn_length. lia.
   Qed.
 
-  (* ---- VCF on ASCII input *)
-  Lemma d_vcf_field_done : forall fuel st d m dst c len, repb st d m -> m < fuel ->
-    exists st' m', d_vcf_field_loop rd cap fuel st dst (Some c) len = (TOk, dst, Some c, len, st')
+  (* ---- VCF *)
+  Lemma d_vcf_field_done : forall fx fuel st d m dst pend err c len, repb st d m -> m < fuel ->
+    exists st' m', d_vcf_field_loop rd cap fx fuel st dst pend err (Some c) len
+                   = (TOk, dst, pend, err, Some c, len, st')
                    /\ repb st' d m' /\ m' <= m.
   Proof.
-    induction fuel as [|fuel IH]; intros st d m dst c len HR Hf; [lia|].
+    intros fx. induction fuel as [|fuel IH]; intros st d m dst pend err c len HR Hf; [lia|].
     cbn [d_vcf_field_loop].
     pose proof (br_fill_buf_spec rd Rep Hsim cap Hcap st d m HR) as Hfb.
     destruct (br_fill_buf rd cap st) as [[src|] st1].
     - destruct Hfb as [_ [_ [_ [m1 [Hm1 HR1]]]]].
       exists st1, m1. split; [reflexivity|]. split; [exact HR1|exact Hm1].
     - destruct Hfb as [m1 [Hm1 HR1]].
-      destruct (IH st1 d m1 dst c len HR1 ltac:(lia)) as [st' [m' [E [HR' Hm']]]].
+      destruct (IH st1 d m1 dst pend err c len HR1 ltac:(lia)) as [st' [m' [E [HR' Hm']]]].
       exists st', m'. split; [exact E|]. split; [exact HR'|lia].
   Qed.
 
-  Lemma d_vcf_field_loop_spec : forall fuel st d m dst len,
+  (* the pinned loop on ASCII data: nothing is ever pending, no validation fails *)
+  Lemma d_vcf_field_loop_ascii : forall fuel st d m dst len,
     repb st d m -> m + length d + 2 < fuel -> ascii d = true ->
     exists st' m',
-      d_vcf_field_loop rd cap fuel st dst None len
-        = (TOk, dst ++ fst (fst (BedRec.scan_field d)), snd (fst (BedRec.scan_field d)),
+      d_vcf_field_loop rd cap false fuel st dst [] false None len
+        = (TOk, dst ++ fst (fst (BedRec.scan_field d)), [], false, snd (fst (BedRec.scan_field d)),
            len + fld_n (fst (fst (BedRec.scan_field d))) (snd (fst (BedRec.scan_field d))), st')
       /\ repb st' (snd (BedRec.scan_field d)) m' /\ m' <= m.
   Proof.
@@ -113,7 +115,7 @@ Section TabProofs.
       { rewrite Hd in Ha. rewrite ascii_app in Ha. apply andb_true_iff in Ha. exact Ha. }
       destruct Hasrc as [Hasrc Harest].
       destruct (BedRec.scan_field src) as [[f dl] rw] eqn:Esc.
-      unfold src at 1. fold src.
+      unfold src at 1. fold src. cbv zeta.
       destruct dl as [b|].
       + destruct (bscan_some src f b rw Esc) as [Hw Hall].
         assert (Hsc : BedRec.scan_field d = (f, Some b, rw ++ rest)) by (rewrite Hd at 1; apply Hall).
@@ -132,8 +134,8 @@ Section TabProofs.
           replace (Datatypes.S (length f)) with (length f + 1) by lia.
           rewrite <- skipn_skipn_add. rewrite skipn_app_le by lia.
           rewrite skipn_all. reflexivity. }
-        destruct (d_vcf_field_done fuel _ _ m1 (dst ++ f) b (len + Datatypes.S (length f)) HR2 ltac:(lia))
-          as [st' [m' [E [HR' Hm']]]].
+        destruct (d_vcf_field_done false fuel _ _ m1 (dst ++ f) [] false b (len + Datatypes.S (length f))
+                    HR2 ltac:(lia)) as [st' [m' [E [HR' Hm']]]].
         exists st', m'. rewrite E. split; [reflexivity|]. split; [exact HR'|lia].
       + destruct (bscan_none src f rw Esc) as [Hn' [Hrw Hall]]. subst f rw.
         rewrite (utf8_valid_ascii src Hasrc).
@@ -151,6 +153,83 @@ Section TabProofs.
           rewrite app_length; repeat (f_equal; try lia).
   Qed.
 
+  (* the repaired loop on ANY data: what the end of read_field makes of the final state is the
+     validation of the whole field *)
+  Lemma d_vcf_field_loop_fx : forall fuel st d m dst pend len,
+    repb st d m -> m + length d + 2 < fuel ->
+    exists st' m' dst' pend' err',
+      d_vcf_field_loop rd cap true fuel st dst pend false None len
+        = (TOk, dst', pend', err', snd (fst (BedRec.scan_field d)),
+           len + fld_n (fst (fst (BedRec.scan_field d))) (snd (fst (BedRec.scan_field d))), st')
+      /\ vfin dst' pend' err'
+         = (if Fastq.utf8_valid (pend ++ fst (fst (BedRec.scan_field d)))
+            then Some (dst ++ pend ++ fst (fst (BedRec.scan_field d))) else None)
+      /\ repb st' (snd (BedRec.scan_field d)) m' /\ m' <= m.
+  Proof.
+    induction fuel as [|fuel IH]; intros st d m dst pend len HR Hf; [lia|].
+    cbn [d_vcf_field_loop].
+    pose proof (br_fill_buf_spec rd Rep Hsim cap Hcap st d m HR) as Hfb.
+    destruct (br_fill_buf rd cap st) as [[src|] st1].
+    2:{ destruct Hfb as [m1 [Hm1 HR1]].
+        destruct (IH st1 d m1 dst pend len HR1 ltac:(lia)) as [st' [m' [d' [p' [e' [E [Hv [HR' Hm']]]]]]]].
+        exists st', m', d', p', e'. split; [exact E|]. split; [exact Hv|]. split; [exact HR'|lia]. }
+    destruct Hfb as [Hp [Hn [Hfst [m1 [Hm1 HR1]]]]].
+    destruct src as [|x w'].
+    - assert (d = []) by (destruct d; [reflexivity|exfalso; apply Hn; [discriminate|reflexivity]]).
+      subst d. exists st1, m1, dst, pend, false.
+      cbn [BedRec.scan_field fst snd fld_n length]. rewrite !app_nil_r, Nat.add_0_r.
+      split; [reflexivity|]. split; [reflexivity|]. split; [exact HR1|exact Hm1].
+    - set (src := x :: w') in *.
+      pose proof (wsplit src d Hp) as Hd.
+      set (rest := skipn (length src) d) in *.
+      assert (Hlr : length d = length src + length rest) by (rewrite Hd at 1; apply app_length).
+      destruct (BedRec.scan_field src) as [[f dl] rw] eqn:Esc.
+      unfold src at 1. fold src. cbv zeta.
+      destruct dl as [b|].
+      + destruct (bscan_some src f b rw Esc) as [Hw Hall].
+        assert (Hsc : BedRec.scan_field d = (f, Some b, rw ++ rest)) by (rewrite Hd at 1; apply Hall).
+        rewrite Hsc. cbn [fst snd fld_n].
+        pose proof (f_equal (@length N) Hw) as Hx. rewrite app_length in Hx. cbn [length] in Hx.
+        assert (HR2 : repb (br_consume (Datatypes.S (length f)) st1) (rw ++ rest) m1).
+        { replace (rw ++ rest) with (skipn (Datatypes.S (length f)) d).
+          { apply (consume_k Rep st1 src); auto. lia. }
+          assert (Hdd : d = f ++ [b] ++ (rw ++ rest)).
+          { rewrite Hd. rewrite Hw. rewrite <- !app_assoc. reflexivity. }
+          rewrite Hdd at 1.
+          replace (Datatypes.S (length f)) with (length f + 1) by lia.
+          rewrite <- skipn_skipn_add. rewrite skipn_app_le by lia.
+          rewrite skipn_all. reflexivity. }
+        destruct pend as [|p0 pt].
+        * destruct (Fastq.utf8_valid f) eqn:Hv.
+          -- destruct (d_vcf_field_done true fuel _ _ m1 (dst ++ f) [] false b
+                         (len + Datatypes.S (length f)) HR2 ltac:(lia)) as [st' [m' [E [HR' Hm']]]].
+             exists st', m', (dst ++ f), [], false. rewrite E. cbn [app]. rewrite Hv.
+             split; [reflexivity|]. split; [unfold vfin; cbn [Fastq.utf8_valid]; rewrite app_nil_r; reflexivity|].
+             split; [exact HR'|lia].
+          -- destruct (d_vcf_field_done true fuel _ _ m1 dst [] true b
+                         (len + Datatypes.S (length f)) HR2 ltac:(lia)) as [st' [m' [E [HR' Hm']]]].
+             exists st', m', dst, [], true. rewrite E. cbn [app]. rewrite Hv.
+             split; [reflexivity|]. split; [reflexivity|]. split; [exact HR'|lia].
+        * destruct (d_vcf_field_done true fuel _ _ m1 dst ((p0 :: pt) ++ f) false b
+                      (len + Datatypes.S (length f)) HR2 ltac:(lia)) as [st' [m' [E [HR' Hm']]]].
+          exists st', m', dst, ((p0 :: pt) ++ f), false. rewrite E.
+          split; [reflexivity|]. split; [reflexivity|]. split; [exact HR'|lia].
+      + destruct (bscan_none src f rw Esc) as [Hn' [Hrw Hall]]. subst f rw.
+        assert (HR2 : repb (br_consume (length src) st1) rest m1)
+          by (apply (consume_k Rep st1 src); auto).
+        destruct (IH _ rest m1 dst (pend ++ src) (len + length src) HR2)
+          as [st' [m' [d' [p' [e' [E [Hv [HR' Hm']]]]]]]].
+        { unfold src in *. cbn [length] in *. lia. }
+        assert (Hsc : BedRec.scan_field d = (src ++ fst (fst (BedRec.scan_field rest)),
+                  snd (fst (BedRec.scan_field rest)), snd (BedRec.scan_field rest)))
+          by (rewrite Hd at 1; apply Hall).
+        exists st', m', d', p', e'. rewrite E. rewrite Hsc. cbn [fst snd].
+        split; [|split; [|split; [exact HR'|lia]]].
+        * unfold fld_n. destruct (snd (fst (BedRec.scan_field rest)));
+            rewrite app_length; repeat (f_equal; try lia).
+        * rewrite Hv. rewrite <- !app_assoc. reflexivity.
+  Qed.
+
   Lemma scan_rest_ascii : forall d, ascii d = true -> ascii (snd (BedRec.scan_field d)) = true.
   Proof.
     induction d as [|b t IH]; intros H; [reflexivity|].
@@ -159,49 +238,162 @@ Section TabProofs.
     specialize (IH Ht). destruct (BedRec.scan_field t) as [[f d'] r]. exact IH.
   Qed.
 
-  Lemma d_vcf_read_field_spec : forall fuel st d m dst,
-    repb st d m -> m + length d + 2 < fuel -> ascii d = true ->
+  Lemma scan_field_ascii : forall d, ascii d = true -> ascii (fst (fst (BedRec.scan_field d))) = true.
+  Proof.
+    induction d as [|b t IH]; intros H; [reflexivity|].
+    cbn [ascii forallb] in H. apply andb_true_iff in H. destruct H as [Hb Ht].
+    cbn [BedRec.scan_field]. destruct ((b =? 9)%N || (b =? 10)%N); [reflexivity|].
+    specialize (IH Ht). destruct (BedRec.scan_field t) as [[f d'] r]. cbn [fst] in *.
+    cbn [ascii forallb]. rewrite Hb. exact IH.
+  Qed.
+
+  (* read_field, either tree: valid field -> the closed form; invalid field -> InvalidData after
+     the field has been consumed.  Premise: the repaired tree, or ASCII data. *)
+  Lemma d_vcf_read_field_fx_spec : forall fx fuel st d m dst,
+    repb st d m -> m + length d + 2 < fuel -> (fx = true \/ ascii d = true) ->
     exists st' m',
-      d_vcf_read_field rd cap fuel st dst
-        = (TOk, fst (fst (fst (w_vcf_read_field d dst))), snd (fst (fst (w_vcf_read_field d dst))),
-           snd (fst (w_vcf_read_field d dst)), st')
+      d_vcf_read_field_fx rd cap fx fuel st dst
+        = (if field_valid d
+           then (TOk, fst (fst (fst (w_vcf_read_field d dst))), snd (fst (fst (w_vcf_read_field d dst))),
+                 snd (fst (w_vcf_read_field d dst)), st')
+           else (TInvalid, [], snd (fst (fst (w_vcf_read_field d dst))), false, st'))
       /\ repb st' (snd (w_vcf_read_field d dst)) m' /\ m' <= m
       /\ length (snd (w_vcf_read_field d dst)) <= length d
-      /\ ascii (snd (w_vcf_read_field d dst)) = true.
+      /\ (ascii d = true -> ascii (snd (w_vcf_read_field d dst)) = true).
   Proof.
-    intros fuel st d m dst HR Hf Ha. unfold d_vcf_read_field, w_vcf_read_field.
-    destruct (d_vcf_field_loop_spec fuel st d m dst 0 HR Hf Ha) as [st' [m' [E [HR' Hm']]]].
-    rewrite E. pose proof (scan_rest_ascii d Ha) as Har.
+    intros fx fuel st d m dst HR Hf Hsw. unfold d_vcf_read_field_fx, w_vcf_read_field, field_valid.
+    assert (Hloop : exists st' m' dst' pend' err',
+              d_vcf_field_loop rd cap fx fuel st dst [] false None 0
+              = (TOk, dst', pend', err', snd (fst (BedRec.scan_field d)),
+                 0 + fld_n (fst (fst (BedRec.scan_field d))) (snd (fst (BedRec.scan_field d))), st')
+              /\ vfin dst' pend' err'
+                 = (if Fastq.utf8_valid (fst (fst (BedRec.scan_field d)))
+                    then Some (dst ++ fst (fst (BedRec.scan_field d))) else None)
+              /\ repb st' (snd (BedRec.scan_field d)) m' /\ m' <= m).
+    { destruct fx.
+      - destruct (d_vcf_field_loop_fx fuel st d m dst [] 0 HR Hf)
+          as [st' [m' [d' [p' [e' [E [Hv [HR' Hm']]]]]]]].
+        exists st', m', d', p', e'. cbn [app] in Hv. auto.
+      - destruct Hsw as [Hsw|Ha]; [discriminate|].
+        destruct (d_vcf_field_loop_ascii fuel st d m dst 0 HR Hf Ha) as [st' [m' [E [HR' Hm']]]].
+        exists st', m', (dst ++ fst (fst (BedRec.scan_field d))), [], false.
+        split; [exact E|]. split; [|auto].
+        rewrite (utf8_valid_ascii _ (scan_field_ascii d Ha)). unfold vfin. cbn [Fastq.utf8_valid].
+        rewrite app_nil_r. reflexivity. }
+    destruct Hloop as [st' [m' [dst' [pend' [err' [E [Hv [HR' Hm']]]]]]]].
+    rewrite E, Hv. pose proof (scan_rest_ascii d) as Har.
     destruct (BedRec.scan_field d) as [[f dl] r] eqn:Esc. cbn [fst snd] in *.
     pose proof (bscan_len _ _ _ _ Esc) as Hl.
-    exists st', m'. destruct dl as [c|]; cbn [fst snd fld_n Nat.add].
+    exists st', m'.
+    destruct (Fastq.utf8_valid f); destruct dl as [c|]; cbn [fst snd fld_n Nat.add].
+    - split; [reflexivity|]. split; [exact HR'|]. split; [exact Hm'|]. split; [lia|exact Har].
+    - destruct Hl as [Hr Hlen]. subst r. split; [reflexivity|]. split; [exact HR'|].
+      split; [exact Hm'|]. split; [cbn [length]; lia|reflexivity].
     - split; [reflexivity|]. split; [exact HR'|]. split; [exact Hm'|]. split; [lia|exact Har].
     - destruct Hl as [Hr Hlen]. subst r. split; [reflexivity|]. split; [exact HR'|].
       split; [exact Hm'|]. split; [cbn [length]; lia|reflexivity].
   Qed.
 
-  Lemma d_vcf_read_required_spec : forall k fuel st d m dst ends len,
-    repb st d m -> m + length d + 2 < fuel -> ascii d = true ->
-    match w_vcf_read_required k d dst ends len with
-    | (ok, src1, dst1, ends1, len1) =>
-        exists st' m', d_vcf_read_required rd cap k fuel st dst ends len = (TOk, ok, dst1, ends1, len1, st')
-                       /\ repb st' src1 m' /\ m' <= m /\ length src1 <= length d /\ ascii src1 = true
+  Lemma d_vcf_read_required_fx_spec : forall fx k fuel st d m dst ends len,
+    repb st d m -> m + length d + 2 < fuel -> (fx = true \/ ascii d = true) ->
+    match wx_vcf_read_required k d dst ends len with
+    | (valid, ok, src1, dst1, ends1, len1) =>
+        exists st' m',
+          d_vcf_read_required_fx rd cap fx k fuel st dst ends len
+            = (if valid then TOk else TInvalid, ok, dst1, ends1, len1, st')
+          /\ repb st' src1 m' /\ m' <= m /\ length src1 <= length d
+          /\ (ascii d = true -> ascii src1 = true)
     end.
   Proof.
-    induction k as [|k IH]; intros fuel st d m dst ends len HR Hf Ha.
-    - cbn [w_vcf_read_required d_vcf_read_required]. exists st, m. auto.
-    - cbn [w_vcf_read_required d_vcf_read_required].
-      destruct (d_vcf_read_field_spec fuel st d m dst HR Hf Ha) as [st1 [m1 [E1 [HR1 [Hm1 [Hl1 Ha1]]]]]].
+    intros fx. induction k as [|k IH]; intros fuel st d m dst ends len HR Hf Hsw.
+    - cbn [wx_vcf_read_required d_vcf_read_required_fx]. exists st, m. auto.
+    - cbn [wx_vcf_read_required d_vcf_read_required_fx].
+      destruct (d_vcf_read_field_fx_spec fx fuel st d m dst HR Hf Hsw)
+        as [st1 [m1 [E1 [HR1 [Hm1 [Hl1 Ha1]]]]]].
       rewrite E1. destruct (w_vcf_read_field d dst) as [[[dst1 n1] eol] src1]. cbn [fst snd] in *.
+      destruct (field_valid d); cbn [negb].
+      2:{ exists st1, m1. split; [reflexivity|]. split; [exact HR1|]. split; [lia|]. split; [lia|exact Ha1]. }
       destruct eol.
       + exists st1, m1. split; [reflexivity|]. split; [exact HR1|]. split; [lia|]. split; [lia|exact Ha1].
-      + pose proof (IH fuel st1 src1 m1 dst1 (ends ++ [length dst1]) (len + n1) HR1 ltac:(lia) Ha1) as HI.
-        destruct (w_vcf_read_required k src1 dst1 (ends ++ [length dst1]) (len + n1))
-          as [[[[ok src2] dst2] ends2] len2].
+      + assert (Hsw1 : fx = true \/ ascii src1 = true) by (destruct Hsw; [left; assumption|right; auto]).
+        pose proof (IH fuel st1 src1 m1 dst1 (ends ++ [length dst1]) (len + n1) HR1 ltac:(lia) Hsw1) as HI.
+        destruct (wx_vcf_read_required k src1 dst1 (ends ++ [length dst1]) (len + n1))
+          as [[[[[valid ok] src2] dst2] ends2] len2].
         destruct HI as [st' [m' [E [HR' [Hm' [Hl' Ha']]]]]].
-        exists st', m'. split; [exact E|]. split; [exact HR'|]. split; [lia|]. split; [lia|exact Ha'].
+        exists st', m'. split; [exact E|]. split; [exact HR'|]. split; [lia|]. split; [lia|auto].
   Qed.
 
+  (* read_record, either tree (fx = the switch): the closed form with whole-field validation *)
+  Theorem d_vcf_read_record_fx_spec : forall fx fuel st d m,
+    repb st d m -> m + length d + 2 < fuel -> (fx = true \/ ascii d = true) ->
+    exists st' m',
+      d_vcf_read_record_fx rd cap fx fuel st
+        = (fst (fst (fst (wx_vcf_read_record d))), snd (fst (fst (wx_vcf_read_record d))),
+           snd (fst (wx_vcf_read_record d)), st')
+      /\ repb st' (snd (wx_vcf_read_record d)) m' /\ m' <= m
+      /\ length (snd (wx_vcf_read_record d)) <= length d.
+  Proof.
+    intros fx fuel st d m HR Hf Hsw. unfold d_vcf_read_record_fx, wx_vcf_read_record.
+    pose proof (d_vcf_read_required_fx_spec fx 7 fuel st d m [] [] 0 HR Hf Hsw) as H1.
+    destruct (wx_vcf_read_required 7 d [] [] 0) as [[[[[valid ok] src1] dst1] ends] len].
+    destruct H1 as [st1 [m1 [E1 [HR1 [Hm1 [Hl1 Ha1]]]]]]. rewrite E1.
+    destruct valid; cbn [negb].
+    2:{ exists st1, m1. cbn [fst snd]. split; [reflexivity|]. split; [exact HR1|]. split; lia. }
+    destruct ok; cbn [negb].
+    2:{ exists st1, m1. cbn [fst snd]. split; [reflexivity|]. split; [exact HR1|]. split; lia. }
+    assert (Hsw1 : fx = true \/ ascii src1 = true) by (destruct Hsw; [left; assumption|right; auto]).
+    destruct (d_vcf_read_field_fx_spec fx fuel st1 src1 m1 dst1 HR1 ltac:(lia) Hsw1)
+      as [st2 [m2 [E2 [HR2 [Hm2 [Hl2 Ha2]]]]]].
+    rewrite E2. destruct (w_vcf_read_field src1 dst1) as [[[dst2 n2] eol] src2]. cbn [fst snd] in *.
+    destruct (field_valid src1); cbn [negb].
+    2:{ exists st2, m2. cbn [fst snd]. split; [reflexivity|]. split; [exact HR2|]. split; lia. }
+    destruct eol.
+    - exists st2, m2. cbn [fst snd]. split; [reflexivity|]. split; [exact HR2|]. split; lia.
+    - destruct (read_until_spec rd Rep Hsim cap Hcap LF fuel st2 src2 m2 HR2 ltac:(lia))
+        as [st3 [m3 [E3 [HR3 Hm3]]]].
+      rewrite E3. exists st3, m3. unfold w_tab_tail.
+      destruct (Fastq.utf8_valid (take_line LF src2)); cbn [fst snd];
+        (split; [reflexivity|]; split; [exact HR3|]; split; [lia|]; rewrite skipn_length; lia).
+  Qed.
+
+  (* on ASCII input the validating closed form is the plain one *)
+  Lemma wx_required_ascii : forall k d dst ends len, ascii d = true ->
+    wx_vcf_read_required k d dst ends len
+    = (true, fst (fst (fst (fst (w_vcf_read_required k d dst ends len)))),
+       snd (fst (fst (fst (w_vcf_read_required k d dst ends len)))),
+       snd (fst (fst (w_vcf_read_required k d dst ends len))),
+       snd (fst (w_vcf_read_required k d dst ends len)), snd (w_vcf_read_required k d dst ends len))
+    /\ ascii (snd (fst (fst (fst (w_vcf_read_required k d dst ends len))))) = true.
+  Proof.
+    induction k as [|k IH]; intros d dst ends len Ha.
+    - cbn [wx_vcf_read_required w_vcf_read_required fst snd]. auto.
+    - cbn [wx_vcf_read_required w_vcf_read_required].
+      assert (Hv : field_valid d = true) by (apply utf8_valid_ascii, scan_field_ascii, Ha).
+      rewrite Hv. cbn [negb].
+      assert (Har : ascii (snd (w_vcf_read_field d dst)) = true).
+      { unfold w_vcf_read_field. pose proof (scan_rest_ascii d Ha) as Hr.
+        destruct (BedRec.scan_field d) as [[f dl] r]. destruct dl; exact Hr. }
+      destruct (w_vcf_read_field d dst) as [[[dst1 n1] eol] src1]. cbn [fst snd] in *.
+      destruct eol; [cbn [fst snd]; auto|].
+      apply IH. exact Har.
+  Qed.
+
+  Lemma wx_ascii : forall d, ascii d = true -> wx_vcf_read_record d = w_vcf_read_record d.
+  Proof.
+    intros d Ha. unfold wx_vcf_read_record, w_vcf_read_record.
+    destruct (wx_required_ascii 7 d [] [] 0 Ha) as [E Har]. rewrite E.
+    destruct (w_vcf_read_required 7 d [] [] 0) as [[[[ok src1] dst1] ends] len]. cbn [fst snd negb] in *.
+    destruct ok; cbn [negb]; [|reflexivity].
+    assert (Hv : field_valid src1 = true) by (apply utf8_valid_ascii, scan_field_ascii, Har).
+    assert (Har2 : ascii (snd (w_vcf_read_field src1 dst1)) = true).
+    { unfold w_vcf_read_field. pose proof (scan_rest_ascii src1 Har) as Hr.
+      destruct (BedRec.scan_field src1) as [[f dl] r]. destruct dl; exact Hr. }
+    destruct (w_vcf_read_field src1 dst1) as [[[dst2 n2] eol] src2]. cbn [fst snd] in *.
+    rewrite Hv. cbn [negb]. destruct eol; [reflexivity|].
+    rewrite (utf8_valid_ascii _ (ascii_take_line src2 Har2)). reflexivity.
+  Qed.
+
+  (* the reader of the tree on ASCII input (statement kept from the first version; C16 imports it) *)
   Theorem d_vcf_read_record_ascii_spec : forall fuel st d m,
     repb st d m -> m + length d + 2 < fuel -> ascii d = true ->
     exists st' m',
@@ -211,22 +403,22 @@ Section TabProofs.
       /\ repb st' (snd (w_vcf_read_record d)) m' /\ m' <= m
       /\ length (snd (w_vcf_read_record d)) <= length d.
   Proof.
-    intros fuel st d m HR Hf Ha. unfold d_vcf_read_record, w_vcf_read_record.
-    pose proof (d_vcf_read_required_spec 7 fuel st d m [] [] 0 HR Hf Ha) as H1.
-    destruct (w_vcf_read_required 7 d [] [] 0) as [[[[ok src1] dst1] ends] len].
-    destruct H1 as [st1 [m1 [E1 [HR1 [Hm1 [Hl1 Ha1]]]]]]. rewrite E1.
-    destruct ok; cbn [negb].
-    2:{ exists st1, m1. cbn [fst snd]. split; [reflexivity|]. split; [exact HR1|]. split; lia. }
-    destruct (d_vcf_read_field_spec fuel st1 src1 m1 dst1 HR1 ltac:(lia) Ha1)
-      as [st2 [m2 [E2 [HR2 [Hm2 [Hl2 Ha2]]]]]].
-    rewrite E2. destruct (w_vcf_read_field src1 dst1) as [[[dst2 n2] eol] src2]. cbn [fst snd] in *.
-    destruct eol.
-    - exists st2, m2. cbn [fst snd]. split; [reflexivity|]. split; [exact HR2|]. split; lia.
-    - destruct (read_until_spec rd Rep Hsim cap Hcap LF fuel st2 src2 m2 HR2 ltac:(lia))
-        as [st3 [m3 [E3 [HR3 Hm3]]]].
-      rewrite E3. rewrite (utf8_valid_ascii _ (ascii_take_line src2 Ha2)).
-      exists st3, m3. cbn [fst snd]. unfold w_tab_tail.
-      split; [reflexivity|]. split; [exact HR3|]. split; [lia|].
-      rewrite skipn_length. lia.
+    intros fuel st d m HR Hf Ha. unfold d_vcf_read_record.
+    rewrite <- (wx_ascii d Ha).
+    exact (d_vcf_read_record_fx_spec vcf_utf8_repaired fuel st d m HR Hf (or_intror Ha)).
+  Qed.
+
+  (* the reader of the tree, through the switch: unconditional once the switch is true *)
+  Theorem d_vcf_read_record_spec : forall fuel st d m,
+    repb st d m -> m + length d + 2 < fuel -> (vcf_utf8_repaired = true \/ ascii d = true) ->
+    exists st' m',
+      d_vcf_read_record rd cap fuel st
+        = (fst (fst (fst (wx_vcf_read_record d))), snd (fst (fst (wx_vcf_read_record d))),
+           snd (fst (wx_vcf_read_record d)), st')
+      /\ repb st' (snd (wx_vcf_read_record d)) m' /\ m' <= m
+      /\ length (snd (wx_vcf_read_record d)) <= length d.
+  Proof.
+    intros fuel st d m HR Hf Hsw. unfold d_vcf_read_record.
+    exact (d_vcf_read_record_fx_spec vcf_utf8_repaired fuel st d m HR Hf Hsw).
   Qed.
 End TabProofs.
